@@ -48,6 +48,13 @@ pub struct AmountCase {
     /// an earlier begin on the same client was declined (status information with a receipt number of its own, then abort)
     #[serde(default)]
     pub prior_declined: bool,
+    /// between begin and the real commit / cancel the same call is tried with the token in swapped ASCII case (a token
+    /// no reservation was made for): it must be refused without traffic and leave the reservation alone
+    #[serde(default)]
+    pub case_probe: bool,
+}
+fn swapcase(s: &str) -> String {
+    s.chars().map(|c| if c.is_ascii_lowercase() { c.to_ascii_uppercase() } else if c.is_ascii_uppercase() { c.to_ascii_lowercase() } else { c }).collect()
 }
 #[derive(Serialize, Deserialize, Clone, Debug, PartialEq)]
 pub struct PriorCard {
@@ -114,6 +121,11 @@ pub fn check_amounts(c: &AmountCase) -> CheckResult {
         })
         .collect();
     sc.ops = vec![Op::Begin(c.token.clone()), if c.cancel { Op::Cancel(c.token.clone()) } else { Op::Commit(c.token.clone(), c.final_amount) }];
+    let probe = c.case_probe && swapcase(&c.token) != c.token;
+    if probe {
+        let other = swapcase(&c.token);
+        sc.ops.insert(1, if c.cancel { Op::Cancel(other) } else { Op::Commit(other, c.final_amount) });
+    }
     if c.prior_declined {
         sc.ops.insert(0, Op::Begin(format!("{}-declined", c.token)));
         // the first reservation of the observed phase is declined; a retried reservation is then the second one
@@ -126,10 +138,20 @@ pub fn check_amounts(c: &AmountCase) -> CheckResult {
     }
     let mut tr = guard(|| run_scenario(&sc)).map_err(|p| Violation::new("amounts", "C08 kind=harness-panic".to_string(), p, input.clone()))?;
     if c.prior_declined {
-        if !tr.new_returned || tr.calls.len() != 3 || !matches!(tr.calls[0].result, Some(Err(_))) {
+        if !tr.new_returned || tr.calls.len() != 3 + probe as usize || !matches!(tr.calls[0].result, Some(Err(_))) {
             return Ok(());
         }
         tr.calls.remove(0);
+    }
+    if probe {
+        if !tr.new_returned || tr.calls.len() != 3 {
+            return Ok(());
+        }
+        let pr = decoded_requests(&tr.world, tr.calls[1].req_from, tr.calls[1].req_to);
+        if !matches!(tr.calls[1].result, Some(Err(_))) || !pr.is_empty() {
+            return v("other-token-accepted", format!("reservation open under {:?}; the same call with {:?} (never begun) returned {:?} after sending [{}]", c.token, swapcase(&c.token), tr.calls[1].result, pr.iter().map(|o| format!("{:?} {}", o.0, render(&o.1))).collect::<Vec<_>>().join("; ")));
+        }
+        tr.calls.remove(1);
     }
     if !tr.new_returned || tr.calls.len() != 2 {
         return Ok(());
@@ -264,6 +286,7 @@ pub fn case_strategy() -> impl Strategy<Value = AmountCase> {
             let status_amounts: Vec<u64> = amounts.unwrap_or_default().iter().map(|(k, r)| match k { 0 => 0, 1 => 1, 2 => pre_auth / 2, 3 => pre_auth.saturating_sub(1), 4 => pre_auth, 5 => (pre_auth + 1).min(999_999_999_999), 6 => r % (pre_auth + 1), _ => r % 1_000_000_000_000 }).collect();
             let status_script = match script { 0 => None, 100 => Some("N".to_string()), 101 => Some("NN".to_string()), k => Some(crate::props::c07::STATUS_SCRIPTS[k].to_string()) };
             let prior_declined = lrnd % 5 == 0;
+            let case_probe = lrnd % 7 < 2;
             let prior_card = card.then(|| PriorCard {
                 limit: match lsel % 8 {
                     0 => None,
@@ -297,7 +320,7 @@ pub fn case_strategy() -> impl Strategy<Value = AmountCase> {
                 10 => pre_auth.saturating_add(rnd % 1000),
                 _ => rnd,
             };
-            AmountCase { pre_auth, final_amount, currency, password, token, receipt, status, cancel, intermediates, retried_reservation, status_script, status_amounts, prior_card, prior_txn, prior_declined }
+            AmountCase { pre_auth, final_amount, currency, password, token, receipt, status, cancel, intermediates, retried_reservation, status_script, status_amounts, prior_card, prior_txn, prior_declined, case_probe }
         })
 }
 
@@ -330,6 +353,9 @@ pub fn run(tier: Tier) -> i32 {
             if c.prior_declined {
                 st.class("earlier-declined-begin");
             }
+            if c.case_probe && swapcase(&c.token) != c.token {
+                st.class("probe-with-the-token-in-swapped-case");
+            }
             if c.status_amounts.iter().any(|a| *a < c.pre_auth) {
                 st.class("reservation-status-reports-less-than-requested");
             }
@@ -346,7 +372,7 @@ pub fn run(tier: Tier) -> i32 {
     stats.sample(|| json!({"note": "release = max(P - a, 0) computed in u128; Reservation = {amount P, currency, payment type 0x40, BMP60 (AC, token)} and nothing else"}));
     ctx.finish(
         stats,
-        "proptest: pre-authorisation amounts over 0..10^12-1 (0, 1, 10^k-1/10^k/10^k+1, u32 boundaries, maximum, uniform) x final amounts over u64 (0, P-1, P, P+1, u32::MAX +-1, u64::MAX, random) x currencies {978, 826, 752, 0, 9999} x passwords x CP437 tokens of 0..60 characters x receipts 1..9999 x 1..3 status-information packets with each of amount/trace/date/time/terminal-id present or absent over their full BCD width. The real client runs begin + commit (or cancel) against the simulated terminal, with the reservation answered by 1..3 status informations (receipt number in the first / middle / last one, a provisional number in front of the booked one) that echo the requested amount or report another one (0, 1, half, +-1, random), (or no receipt number at all: begin must fail and the later call be refused without traffic), in a fifth of the cases after an earlier declined begin (status information with a receipt number of its own, then abort), in a quarter of the cases after an earlier read_card on the same client (status information with the optional maximum-pre-authorisation field 1f0b absent / 0 / below / equal / above the configured amount, with or without a payment application) and in an eighth after an earlier complete begin + commit; requests are decoded by the reference codec and compared with exact expected values; the terminal's ledger and the returned summary are compared with min(a,P) resp. the last status information. non-trivial = a real partial release or a > P (final amount not in {0, P}); distinct by (P, a, currency, token, op)",
+        "proptest: pre-authorisation amounts over 0..10^12-1 (0, 1, 10^k-1/10^k/10^k+1, u32 boundaries, maximum, uniform) x final amounts over u64 (0, P-1, P, P+1, u32::MAX +-1, u64::MAX, random) x currencies {978, 826, 752, 0, 9999} x passwords x CP437 tokens of 0..60 characters x receipts 1..9999 x 1..3 status-information packets with each of amount/trace/date/time/terminal-id present or absent over their full BCD width. The real client runs begin + commit (or cancel) against the simulated terminal, with the reservation answered by 1..3 status informations (receipt number in the first / middle / last one, a provisional number in front of the booked one) that echo the requested amount or report another one (0, 1, half, +-1, random), (or no receipt number at all: begin must fail and the later call be refused without traffic), in two sevenths of the cases with a probe call using the token in swapped ASCII case between begin and the real call (must be refused without traffic), in a fifth of the cases after an earlier declined begin (status information with a receipt number of its own, then abort), in a quarter of the cases after an earlier read_card on the same client (status information with the optional maximum-pre-authorisation field 1f0b absent / 0 / below / equal / above the configured amount, with or without a payment application) and in an eighth after an earlier complete begin + commit; requests are decoded by the reference codec and compared with exact expected values; the terminal's ledger and the returned summary are compared with min(a,P) resp. the last status information. non-trivial = a real partial release or a > P (final amount not in {0, P}); distinct by (P, a, currency, token, op)",
         &["P >= 10^12 does not fit the 12-digit amount field and is outside the property", "requests are decoded by the reference codec, never by the repo's"],
         false,
     )
